@@ -6,9 +6,29 @@ import check as C
 ALGS = "MPL"
 
 # axioms each property's theorems may depend on (exact names, checked every run)
-AXIOMS = {}
+AXIOMS = {
+    "C14": ["FunctionalExtensionality.functional_extensionality_dep"],
+    "C20": ["FunctionalExtensionality.functional_extensionality_dep"],
+}
 # theorem names that must be present in Props/Cxx.v
-PINNED = {}
+PINNED = {
+    "C01": ["c01_myers_valid", "c01_myers_no_panic", "c01_snake_spec", "c01_lcs_valid", "c01_lcs_no_panic",
+            "c01_patience_valid", "c01_patience_no_panic", "c01_strong_implies_spec", "c01_raw_replay", "c01_checker_reflects"],
+    "C02": ["c02_capture_valid", "c02_capture_no_panic", "c02_capture_apply", "c02_identical_only_equal", "c02_ratio"],
+    "C03": ["c03_myers_minimal", "c03_lcs_minimal", "c03_cost_lower_bound", "c03_lcs_len_correct"],
+    "C05": ["c05_udiff_applies", "c05_udiff_render_eq_print"],
+    "C06": ["c06_tok_bytes_ok", "c06_tok_str_ok", "c06_tok_str_bytes_agree", "c06_decode_partition"],
+    "C07": ["c07_myers_valid_any_clock", "c07_lcs_valid_any_clock"],
+    "C08": ["c08_replace_acts_by_emitting", "c08_compact_hook", "c08_no_finish_forwards", "c08_default_replace"],
+    "C09": ["c09_capture_alternating", "c09_replace_alternates", "c09_checker_reflects"],
+    "C10": ["c10_compact_preserves", "c10_compact_terminates", "c10_replace_exact", "c10_compact_hook"],
+    "C11": ["c11_exact_repaired", "c11_exact_outside_known_class", "c11_refuted"],
+    "C12": ["c12_eq_ref", "c12_G4", "c12_G4_unique", "c12_G2"],
+    "C13": ["c13_iter_changes_spec", "c13_all_changes_concat"],
+    "C14": ["c14_identify_iff_eq", "c14_textdiff_eq_tokens_diff"],
+    "C15": ["c15_patience_anchors", "c15_unique_spec"],
+    "C20": ["c20_relabel_capture_diff"],
+}
 SPECS = {}
 
 
@@ -87,6 +107,11 @@ def run_C01(ctx):
 
 SPECS["C01"] = dict(
     level="proof",
+    manifest=dict(
+        text="Machine-checked theorems (Props/C01.v, all closed under the global context, no size bound): for every comparison oracle, every in-bounds pair of ranges and EVERY deadline clock, the calls Myers and LCS deliver to a recording hook form a strong raw walk (positive lengths, contiguous cursors, element-wise equal Equal segments, exact Delete index, Insert index within its run), which implies the property's run-relative reading (c01_strong_implies_spec) and finish-last; neither algorithm panics or runs out of fuel (c01_myers_no_panic rests on the full proof of the bidirectional middle-snake search: c01_snake_spec); replaying the callbacks reproduces the new range. Patience validity is proved in the same style when Proofs/Patience.v is present (see evidence theorem list); the sub-range = shifted-slices clause is covered by the correspondence over all sub-ranges and offset lookups rather than by a theorem. The extracted check_raw (reflection proved) is run on every call log of the real crate.",
+        note='Trusted: Coq 8.16.1 kernel; extraction with ExtrOcamlBasic only; OCaml driver and Rust harness glue; the tie of the hand-written model to /repo is the correspondence check (differential testing on the generated inputs, rebuilt from the working tree every run), not a proof about the Rust source. usize wrap-around is not modelled.',
+        technique='Coq proof (Myers middle-snake theory, conquer invariants, LCS) + model/implementation correspondence + verified checker on implementation output',
+    ),
     relevant=lambda comp, kv: {"no_panic", "no_error", "raw_valid", "finish_last"},
     run=run_C01,
     generators="raw component, recording hook, no deadline: every pair of binary sequences up to length 3 (quick) "
@@ -159,6 +184,11 @@ def run_C02(ctx):
 
 SPECS["C02"] = dict(
     level="proof",
+    manifest=dict(
+        text="Machine-checked theorems (Props/C02.v, closed under the global context): for Myers and LCS, every comparison oracle, every in-bounds pair of ranges, EVERY deadline clock, both build modes: capture_diff never panics and returns ops that walk both ranges left to right without gap or overlap with element-wise equal Equal ops (OpsLoose); applying them to old yields new and the inverted ops turn new into old; identical inputs give exactly one Equal (none for empty inputs); the exact ratio 2*matches/(N+M) is in [0,1] and equals 1 iff the inputs are equal. The proof composes raw validity (C01), the buffering simulation through Compact, Compact's 12 rewrite arms and Replace. Patience: same theorems via Proofs/PatienceCapture.v when present. The extracted check_ops_loose (reflection proved) runs on every captured op list of the real crate incl. TextDiff::ops.",
+        note='Trusted: Coq 8.16.1 kernel; extraction with ExtrOcamlBasic only; OCaml driver and Rust harness glue; the tie of the hand-written model to /repo is the correspondence check (differential testing on the generated inputs, rebuilt from the working tree every run), not a proof about the Rust source. usize wrap-around is not modelled.',
+        technique='Coq proof of the whole capture pipeline + correspondence + verified checker on implementation output',
+    ),
     relevant=lambda comp, kv: {"no_panic", "ops_loose", "ratio_range", "identical_only_equal"},
     run=run_C02,
     generators="capture component (capture_diff_deadline + get_diff_ratio): the exhaustive small worlds of C01 with all "
@@ -184,6 +214,11 @@ def run_C03(ctx):
 
 SPECS["C03"] = dict(
     level="proof",
+    manifest=dict(
+        text="Machine-checked theorems (Props/C03.v, closed under the global context): without deadline the raw scripts of Myers and of LCS delete+insert exactly N+M-2L items where L is the length of a longest common subsequence (relational IsLcsLen), for every comparison oracle and every pair of ranges; no valid script is cheaper; the DP used by the checker computes L. Myers minimality rests on the complete proof of find_middle_snake (furthest-reaching invariant, first passing round = ceil(D/2), additivity of the split). Preservation of cost through Compact/Replace is C10's theorem; the capture-level statement is proved in Proofs/Pipeline.v when present. The extracted check_minimal/lcs_len are run on the real crate's raw and captured output.",
+        note='Trusted: Coq 8.16.1 kernel; extraction with ExtrOcamlBasic only; OCaml driver and Rust harness glue; the tie of the hand-written model to /repo is the correspondence check (differential testing on the generated inputs, rebuilt from the working tree every run), not a proof about the Rust source. usize wrap-around is not modelled.',
+        technique='Coq proof (edit-graph theory, snake correctness, LCS DP) + correspondence + verified checker against extracted optimum',
+    ),
     relevant=lambda comp, kv: {"no_panic", "minimal", "equal_is_lcs", "ratio_2L"},
     run=run_C03,
     generators="raw and capture components, algorithms Myers and LCS, no deadline: exhaustive small worlds with "
@@ -252,6 +287,11 @@ def relevant_C07(comp, kv):
 
 SPECS["C07"] = dict(
     level="proof",
+    manifest=dict(
+        text="Machine-checked theorems (Props/C07.v, closed under the global context): the validity and completion theorems of C01 hold for EVERY clock, i.e. whichever probe the deadline expires at (Myers: the snake answers None only after a probe answered true and conquer then emits one delete and one insert; LCS: the table is abandoned and the tail emits the remaining delete/insert), with finish exactly once and last. Not proved, checked on the real code only: 'never expiring = no deadline' (compared on every case), the post-expiry comparison bound (counted by the harness through the cfg(similar_verif) clock, bound 8(N+M)+8) and the plumbing of TextDiffConfig::deadline/timeout and capture_diff_deadline (probe counts compared with the model).",
+        note='Trusted: Coq 8.16.1 kernel; extraction with ExtrOcamlBasic only; OCaml driver and Rust harness glue; the tie of the hand-written model to /repo is the correspondence check (differential testing on the generated inputs, rebuilt from the working tree every run), not a proof about the Rust source. usize wrap-around is not modelled.',
+        technique='Coq proof over all clocks + fault enumeration of every expiry point k on the real code via the virtual-clock hook + verified checker',
+    ),
     relevant=relevant_C07,
     run=run_C07,
     generators="raw component with the cfg(similar_verif) virtual clock: for every binary pair up to length 3/4, a "
@@ -311,6 +351,11 @@ def run_C08(ctx):
 
 SPECS["C08"] = dict(
     level="proof",
+    manifest=dict(
+        text="Machine-checked theorems (Props/C08.v, closed under the global context): finish is emitted once and last by Myers and LCS for every clock; Replace over ANY inner hook is a pure transducer of call lists (what reaches the inner hook is replace_trace, in order; an inner failure propagates); Compact emits nothing before finish and then the cleaned ops followed by finish; NoFinishHook forwards everything but finish; the default replace is delete then insert. The model has no error channel, so 'a hook error aborts the diff unchanged' is decided on the real code by fault enumeration: a recording hook failing at EVERY call index k, for 3 algorithms x 7 hook stacks x {no deadline, clock expiring at probe 0/1/2}, must log exactly k+1 calls and return the injected error.",
+        note='Trusted: Coq 8.16.1 kernel; extraction with ExtrOcamlBasic only; OCaml driver and Rust harness glue; the tie of the hand-written model to /repo is the correspondence check (differential testing on the generated inputs, rebuilt from the working tree every run), not a proof about the Rust source. usize wrap-around is not modelled.',
+        technique='Coq proof of the transducer structure + exhaustive fault injection at every hook call index on the real code',
+    ),
     relevant=lambda comp, kv: {"no_panic", "no_error", "abort", "finish_last", "nofinish_no_fin", "no_rep"},
     run=run_C08,
     generators="raw component over 3 algorithms x 7 hook stacks (recording hook, &mut, NoFinishHook, Replace over a hook "
@@ -340,6 +385,11 @@ def run_C09(ctx):
 
 SPECS["C09"] = dict(
     level="proof",
+    manifest=dict(
+        text="Machine-checked theorems (Props/C09.v, closed under the global context): captured ops strictly alternate Equal / non-Equal with no empty op (so a deletion adjacent to an insertion is one Replace), for every clock and build mode, and Replace produces this from ANY loosely valid non-empty script. NOT proved: the 'insert sits at its latest position' clause; it is decided on the real code by the extracted check_insert_latest (reflection proved) on every captured list and on all valid scripts of small pairs pushed through Compact+Replace.",
+        note='Trusted: Coq 8.16.1 kernel; extraction with ExtrOcamlBasic only; OCaml driver and Rust harness glue; the tie of the hand-written model to /repo is the correspondence check (differential testing on the generated inputs, rebuilt from the working tree every run), not a proof about the Rust source. usize wrap-around is not modelled.',
+        technique='Coq proof (alternation, non-emptiness) + verified checker for the full normal form on implementation output + correspondence',
+    ),
     relevant=lambda comp, kv: {"no_panic", "normal"} if kv.get("stack", "compact_replace") == "compact_replace" else {"no_panic"},
     run=run_C09,
     generators="capture component as in C02 (small worlds, random, every deadline expiry point) and every valid script "
@@ -381,6 +431,11 @@ def run_C10(ctx):
 
 SPECS["C10"] = dict(
     level="proof",
+    manifest=dict(
+        text="Machine-checked theorems (Props/C10.v, closed under the global context): for ANY loosely valid non-empty script (not only algorithm output) Compact's cleanup yields a valid non-empty script with exactly the same numbers of deleted, inserted and equal items, terminates within the model's fuel (inner loops by a weight measure, outer loop by the lexicographic measure), does not panic when Insert indices are not too small (InsLow; exact input qualifies), the Delete slide arms are dead code, and as a hook it emits nothing before finish; Replace alone turns any strong raw walk into index-exact, strictly alternating ops with the same counts and finish last, its debug assertions unreachable; with the verification-only repair switch Compact keeps indices exact. Normal form (insert_latest) through both adapters is checked by the extracted checker on all valid scripts of small pairs.",
+        note='Trusted: Coq 8.16.1 kernel; extraction with ExtrOcamlBasic only; OCaml driver and Rust harness glue; the tie of the hand-written model to /repo is the correspondence check (differential testing on the generated inputs, rebuilt from the working tree every run), not a proof about the Rust source. usize wrap-around is not modelled.',
+        technique='Coq proof (12 zipper rewrite arms, termination measures, Replace state invariant) + correspondence on all valid scripts of small pairs + verified checker',
+    ),
     need_debug=True,
     relevant=lambda comp, kv: {"no_panic", "no_error", "finish_last", "ops_loose", "cost_kept", "normal", "ops_exact"},
     run=run_C10,
@@ -405,6 +460,11 @@ def run_C11(ctx):
 
 SPECS["C11"] = dict(
     level="proof",
+    manifest=dict(
+        text="Machine-checked theorems (Props/C11.v, closed under the global context): with the verification-only swap-repair switch the capture pipeline is index-exact for every input, clock and build mode (c11_exact_repaired); whenever pinned and repaired pipeline agree the pinned output is exact; c11_refuted exhibits the pinned pipeline's violation (old=[b,a], new=[a,a]) - the recorded finding F5. The check runs the extracted check_ops_exact on every captured list with the switch off and on; a failure that disappears with the switch on is the known finding, anything else is a violation.",
+        note='Trusted: Coq 8.16.1 kernel; extraction with ExtrOcamlBasic only; OCaml driver and Rust harness glue; the tie of the hand-written model to /repo is the correspondence check (differential testing on the generated inputs, rebuilt from the working tree every run), not a proof about the Rust source. usize wrap-around is not modelled.',
+        technique='Coq proof for the repaired pipeline + refutation witness for the pinned one + attribution by cfg-guarded repair switch',
+    ),
     relevant=lambda comp, kv: {"no_panic", "ops_exact"},
     run=run_C11,
     generators="capture component, with the cfg(similar_verif) swap-repair switch off (the pinned pipeline) and on: "
@@ -504,4 +564,683 @@ SPECS["C13"] = dict(
     generators="iter component: all four op kinds x offsets 0..3 on both sides x lengths 0..3 over sequences whose old "
                "and new values are disjoint, plus random op lists over random sequences: iter_changes, iter_slices, "
                "apply_to_hook into Capture",
+)
+
+
+# ====================================================================== text layer
+TOKS_MODEL = ["lines", "lnl", "words", "chars"]
+TOKS_DIFF = ["lines", "words", "chars", "uwords", "graphemes"]
+
+
+def is_valid_utf8(b):
+    try:
+        b.decode("utf-8")
+        return True
+    except UnicodeDecodeError:
+        return False
+
+
+def oracle_tokens(ctx, kind, mode, texts):
+    """stage 1 of the replayed-oracle protocol: ask the implementation for the
+    token boundaries of an unmodelled tokenizer (unicode words / graphemes)"""
+    texts = sorted(set(texts))
+    lines = ["tok kind=%s mode=%s text=%s" % (kind, mode, gen.hx(t)) for t in texts]
+    impl, _, _ = C.run_batch(ctx, lines, want_model=False, want_check=False)
+    out = {}
+    for t, im in zip(texts, impl):
+        out[t] = im.split("=", 1)[1] if im.startswith("toks=") else None
+    return out
+
+
+def textdiff_lines(ctx, cases):
+    """cases: (tok, alg, mode, dl, nlo, old, new).  Adds replayed oracle tokens
+    for unicode words / graphemes; cases whose oracle is lossy are kept without
+    tokens so that the checker reports them (the model then says so too)."""
+    need = {}
+    for tok, alg, mode, dl, nlo, o, n in cases:
+        if tok in ("uwords", "graphemes"):
+            need.setdefault((tok, mode), set()).update([o, n])
+    orc = {k: oracle_tokens(ctx, k[0], k[1], v) for k, v in need.items()}
+    out = []
+    for tok, alg, mode, dl, nlo, o, n in cases:
+        extra = ""
+        if tok in ("uwords", "graphemes"):
+            a, b = orc[(tok, mode)][o], orc[(tok, mode)][n]
+            if a is None or b is None or "X" in a or "X" in b:
+                extra = " otoks=LOSSY ntoks=LOSSY"
+            else:
+                extra = " otoks=%s ntoks=%s" % (a, b)
+        out.append("textdiff tok=%s alg=%s mode=%s dl=%s nlo=%s old=%s new=%s%s" % (
+            tok, alg, mode, "-" if dl is None else dl, nlo, gen.hx(o), gen.hx(n), extra))
+    return out
+
+
+def text_pairs(ctx, n, invalid):
+    out = []
+    for _ in range(n):
+        r = ctx.rng.random()
+        if r < 0.5:
+            t, alpha = gen.rand_lines_text(ctx.rng, 8, invalid)
+            out.append((t, gen.edit_lines_text(ctx.rng, t, alpha)))
+        else:
+            a = gen.rand_text(ctx.rng, 10, invalid, line_bias=True)
+            b = gen.rand_text(ctx.rng, 10, invalid, line_bias=True) if ctx.rng.random() < 0.5 else a[:ctx.rng.randrange(len(a) + 1)] + gen.rand_text(ctx.rng, 3, invalid)
+            out.append((a, b))
+    if not invalid:
+        fix = lambda t: t if is_valid_utf8(t) else t.decode("utf-8", "ignore").encode()
+        out = [(fix(a), fix(b)) for a, b in out]
+    return out
+
+
+def nontrivial_text(comp, kv, impl):
+    return bool(re.search(r"[DIR]:", impl)) or comp in ("tok", "utf8")
+
+
+import re  # noqa: E402
+
+
+# ------------------------------------------------------------------ C06
+def run_C06(ctx):
+    rel = SPECS["C06"]["relevant"]
+    lines = []
+    pairs_idx = []
+    texts = gen.all_texts(gen.VALID_SYMS[:12], tiered(ctx, 3, 4))
+    for _ in range(tiered(ctx, 1500, 15000)):
+        texts.append(gen.rand_text(ctx.rng, 14, invalid=False, line_bias=ctx.rng.random() < 0.5))
+    btexts = gen.all_texts(gen.VALID_SYMS[:5] + gen.INVALID_SYMS[:5], tiered(ctx, 3, 4))
+    for _ in range(tiered(ctx, 1500, 15000)):
+        btexts.append(gen.rand_text(ctx.rng, 14, invalid=True, line_bias=ctx.rng.random() < 0.5))
+    # every White_Space code point and its two neighbours, in word / whitespace / newline contexts
+    WS = [9, 10, 11, 12, 13, 32, 133, 160, 5760] + list(range(8192, 8203)) + [8232, 8233, 8239, 8287, 12288]
+    cps = sorted({c + d for c in WS for d in (-1, 0, 1) if c + d >= 0} | {0, 1, 0x1C, 0x1D, 0x1E, 0x1F, 0x7F, 0x200B, 0xFEFF})
+    for cp in cps:
+        ch = chr(cp).encode("utf-8")
+        for pat in (b"a%sb", b" %s ", b"%s", b"a%s", b"%sa", b"\n%s\n", b"a %s b", b"%s" + ch):
+            texts.append(pat.replace(b"%s", ch))
+    ctx.count("tok:every-whitespace-code-point-in-context", len(cps) * 8)
+    for t in texts:
+        for k in TOKS_MODEL:
+            pairs_idx.append(len(lines))
+            lines.append("tok kind=%s mode=str text=%s" % (k, gen.hx(t)))
+            lines.append("tok kind=%s mode=bytes text=%s" % (k, gen.hx(t)))
+            ctx.count("tok:valid-utf8 str+bytes", 2)
+        for k in ("uwords", "graphemes"):
+            lines.append("tok kind=%s mode=str text=%s" % (k, gen.hx(t)))
+            lines.append("tok kind=%s mode=bytes text=%s" % (k, gen.hx(t)))
+            ctx.count("tok:oracle-tokenizers", 2)
+    for t in btexts:
+        for k in TOKS_MODEL + ["uwords", "graphemes"]:
+            lines.append("tok kind=%s mode=bytes text=%s" % (k, gen.hx(t)))
+            ctx.count("tok:invalid-utf8 bytes")
+    impl, model, _ = C.evaluate(ctx, "tok", lines, rel, nontrivial=nontrivial_text, x=True)
+    # on valid UTF-8 the str and byte implementations return identical tokens
+    for i in pairs_idx:
+        if impl[i] != impl[i + 1]:
+            ctx.failures.append(dict(batch="tok-str-vs-bytes", case=lines[i], impl=impl[i] + " / bytes: " + impl[i + 1],
+                                     model=None, clauses=["tok_str_bytes_agree"], dbg=False))
+    # decoder and whitespace table ties
+    u = []
+    for a in range(256):
+        u.append("utf8 text=%02x" % a)
+        for b in range(0, 256, 1 if ctx.tier != "quick" else 3):
+            u.append("utf8 text=%02x%02x" % (a, b))
+    leads = [0xC2, 0xDF, 0xE0, 0xE1, 0xEC, 0xED, 0xEE, 0xEF, 0xF0, 0xF1, 0xF3, 0xF4, 0xF5, 0x80, 0xBF, 0x41]
+    conts = [0x7F, 0x80, 0x8F, 0x90, 0x9F, 0xA0, 0xBF, 0xC0, 0x41]
+    for a in leads:
+        for b in conts:
+            for c in conts:
+                u.append("utf8 text=%02x%02x%02x" % (a, b, c))
+                for d in conts:
+                    u.append("utf8 text=%02x%02x%02x%02x" % (a, b, c, d))
+    for t in btexts[-tiered(ctx, 500, 5000):] + texts[-tiered(ctx, 500, 5000):]:
+        u.append("utf8 text=%s" % gen.hx(t))
+    ctx.count("utf8:decoder-tie", len(u))
+    C.evaluate(ctx, "utf8", u, rel, nontrivial=nontrivial_text)
+    w = ["ws range=%d:%d" % (lo, lo + 4096) for lo in range(0, 0x110000, 4096)]
+    ctx.count("ws:all-code-points", 0x110000)
+    C.evaluate(ctx, "ws", w, rel, nontrivial=lambda comp, kv, impl: impl != "ws=-")
+
+
+def x_skip_oracle(impl, model):
+    return model == "ORACLE"
+
+
+SPECS["C06"] = dict(
+    level="proof",
+    manifest=dict(
+        text='Machine-checked theorems (Props/C06.v, closed under the global context): the UTF-8 decoder partitions the input into chars of 1-4 bytes with valid chars of length len_utf8; for lines / lines-and-newlines / words / chars the byte tokenizers on ARBITRARY bytes and the str tokenizers on valid UTF-8 return non-empty consecutive tokens whose concatenation is the input, with the documented shape (check_tokens: one terminator LF/CRLF/lone CR only at the end of a line token, maximal runs of one char class, one decoded char per token), and str = bytes on valid UTF-8. The decoder, from_utf8_lossy, str::char_indices and the 25-code-point whitespace table of the model are tied to the implementation by sweeps (all 0x110000 code points; all 1- and 2-byte strings; class representatives for 3/4-byte strings). Unicode words / graphemes are external segmentations: only losslessness is checked.',
+        note='Trusted: Coq 8.16.1 kernel; extraction with ExtrOcamlBasic only; OCaml driver and Rust harness glue; the tie of the hand-written model to /repo is the correspondence check (differential testing on the generated inputs, rebuilt from the working tree every run), not a proof about the Rust source. usize wrap-around is not modelled.',
+        technique='Coq proof of tokenizer models + exhaustive small-world correspondence + verified shape checker on implementation output',
+    ),
+    relevant=lambda comp, kv: {"no_panic", "tok_lossless", "tok_shape", "tok_str_bytes_agree"},
+    run=run_C06,
+    generators="tok component: every string over a 12-symbol set (a, b, space, CR, LF, NBSP, U+2028, U+3000, U+0085, "
+               "combining acute, ZWJ, a regional-indicator) up to length 3/4 and random longer ones, as str and as bytes, "
+               "for lines / lines-and-newlines / words / chars (model + shape checker) and unicode words / graphemes "
+               "(losslessness only); every byte string over 5 valid + 5 invalid symbols up to 3/4 and random invalid "
+               "texts in byte mode; utf8 component: every 1-byte string, 2-byte strings (every third / all), 3- and "
+               "4-byte strings over lead and continuation class representatives (decoder, from_utf8_lossy, "
+               "str::char_indices tie); ws component: char::is_whitespace for all 0x110000 code points",
+)
+
+
+# ------------------------------------------------------------------ C04
+def run_C04(ctx):
+    rel = SPECS["C04"]["relevant"]
+    cases = []
+    for o, n in text_pairs(ctx, tiered(ctx, 400, 4000), invalid=False):
+        for tok in TOKS_DIFF:
+            for alg in ALGS:
+                cases.append((tok, alg, "str", None, "-", o, n))
+                cases.append((tok, alg, "bytes", None, "-", o, n))
+                ctx.count("textdiff:valid-utf8", 2)
+    for o, n in text_pairs(ctx, tiered(ctx, 300, 3000), invalid=True):
+        for tok in TOKS_DIFF:
+            alg = ctx.rng.choice(ALGS)
+            cases.append((tok, alg, "bytes", None, "-", o, n))
+            ctx.count("textdiff:invalid-utf8-bytes")
+    for o, n in [(b"", b""), (b"", b"a"), (b"a", b""), (b"\n", b""), (b"\r\n", b"\n"), (b"a\r", b"a\r\n")]:
+        for tok in TOKS_DIFF:
+            for alg in ALGS:
+                for mode in ("str", "bytes"):
+                    cases.append((tok, alg, mode, None, "-", o, n))
+    C.evaluate(ctx, "corpus", corpus_lines({"textdiff"}), rel, nontrivial=nontrivial_text)
+    C.evaluate(ctx, "textdiff", textdiff_lines(ctx, cases), rel, nontrivial=nontrivial_text)
+
+
+SPECS["C04"] = dict(
+    level=("proof" if __import__("os").path.exists(__import__("os").path.join(C.VERIF, "coq", "Props", "C04.v")) else "translation_validation"),
+    manifest=dict(
+        text='Machine-checked theorems (Props/C04.v when present; Proofs/TextReconstruct.v): for token lists that partition the texts and any loosely valid op list over the token items, whole-diff iteration never panics, the values of the non-Insert changes concatenate to the old text and of the non-Delete changes to the new text, and indices have the documented shape, composed with the tokenizer theorems (C06) and the pipeline (C02) for lines/words/chars/lines+newlines in str and byte mode; for unicode words / graphemes the tokenization is an oracle replayed from the implementation, of which only losslessness is assumed and checked on every case. The checker runs reconstruct_old/new, change_index_shape and tokens_lossless on the real TextDiff output.',
+        note='Trusted: Coq 8.16.1 kernel; extraction with ExtrOcamlBasic only; OCaml driver and Rust harness glue; the tie of the hand-written model to /repo is the correspondence check (differential testing on the generated inputs, rebuilt from the working tree every run), not a proof about the Rust source. usize wrap-around is not modelled.',
+        technique='Coq proof (composition C06 + C02 + C13) + correspondence incl. replayed-oracle tokenizers + checker on implementation output',
+    ),
+    relevant=lambda comp, kv: {"no_panic", "tokens_lossless", "reconstruct_old", "reconstruct_new",
+                               "change_index_shape", "perop_same"},
+    run=run_C04,
+    generators="textdiff component: random line texts (small line alphabets, LF/CRLF/CR, missing final newline) and "
+               "their edits, random symbol strings incl. multi-byte, and in byte mode invalid UTF-8; 5 tokenizers x 3 "
+               "algorithms x {str,[u8]}; unicode words / graphemes via the replayed-oracle protocol",
+)
+
+
+# ------------------------------------------------------------------ C14
+def run_C14(ctx):
+    rel = SPECS["C14"]["relevant"]
+    cases = []
+    for o, n in text_pairs(ctx, tiered(ctx, 200, 2000), invalid=False):
+        for tok in TOKS_DIFF:
+            for alg in ALGS:
+                cases.append((tok, alg, ctx.rng.choice(["str", "bytes"]), None, ctx.rng.choice(["-", "0", "1"]), o, n))
+                ctx.count("textdiff:small")
+    # both sides of the 100-token threshold
+    sizes = [(99, 99), (100, 100), (100, 101), (101, 100), (101, 3), (3, 101), (250, 240), (99, 101)]
+    for so, sn in sizes:
+        for rep in range(tiered(ctx, 2, 10)):
+            for tok, sep in (("lines", b"\n"), ("words", b" "), ("chars", b""), ("uwords", b" "), ("graphemes", b"")):
+                if tok in ("words", "uwords"):
+                    # words alternate word / whitespace tokens
+                    o = gen.tokens_text(ctx.rng, (so + 1) // 2, b" ")[: None]
+                    n = gen.tokens_text(ctx.rng, (sn + 1) // 2, b" ")
+                elif tok in ("chars", "graphemes"):
+                    o = bytes(ctx.rng.choice(b"abc") for _ in range(so))
+                    n = bytes(ctx.rng.choice(b"abc") for _ in range(sn))
+                else:
+                    o = gen.tokens_text(ctx.rng, so, sep)
+                    n = gen.tokens_text(ctx.rng, sn, sep)
+                if ctx.rng.random() < 0.5:
+                    # near-identical
+                    n = o[: len(o) // 2] + n[: 6] + o[len(o) // 2:]
+                for alg in ALGS:
+                    if alg == "L" and max(so, sn) > 120:
+                        continue
+                    cases.append((tok, alg, "str", None, ctx.rng.choice(["-", "0", "1"]), o, n))
+                    ctx.count("textdiff:around-threshold")
+    C.evaluate(ctx, "textdiff", textdiff_lines(ctx, cases), rel, nontrivial=nontrivial_text, cap=60)
+    idl = []
+    for a, b in gen.all_pairs(3, tiered(ctx, 3, 4)):
+        for os_, oe in gen.all_ranges(len(a)):
+            for ns, ne in gen.all_ranges(len(b)):
+                if ctx.rng.random() < tiered(ctx, 0.2, 1.0):
+                    w = ctx.rng.choice(["u8", "u16", "u32", "u64"])
+                    idl.append("identify w=%s or=%d:%d nr=%d:%d old=%s new=%s" % (w, os_, oe, ns, ne, gen.fmt_list(a), gen.fmt_list(b)))
+                    ctx.count("identify:ternary-subranges")
+    for _ in range(tiered(ctx, 300, 3000)):
+        a, b = gen.structured_pair(ctx.rng, 60)
+        r = gen.rand_subranges(ctx.rng, a, b)
+        w = ctx.rng.choice(["u8", "u16", "u32", "u64"])
+        if w == "u8" and len(set(a + b)) > 250:
+            w = "u32"
+        idl.append("identify w=%s or=%d:%d nr=%d:%d old=%s new=%s" % (w, r[0], r[1], r[2], r[3], gen.fmt_list(a), gen.fmt_list(b)))
+        ctx.count("identify:random")
+    C.evaluate(ctx, "identify", idl, rel, nontrivial=lambda comp, kv, impl: "oids=-" not in impl)
+
+
+SPECS["C14"] = dict(
+    level="proof",
+    manifest=dict(
+        text='Machine-checked theorems (Props/C14.v): IdentifyDistinct assigns equal numbers exactly to equal items within and across sides, in first-seen order, keeps the ranges, and its result depends only on the equality pattern (closed under the global context); the text diff equals capture_diff on the token slices for BOTH branches of the 100-token switch (uses the standard library axiom functional_extensionality_dep to turn pointwise-equal oracles into equal ones; the pointwise lemma is axiom-free). algorithm() and newline_terminated() are compared on the real code.',
+        note='Trusted: Coq 8.16.1 kernel; extraction with ExtrOcamlBasic only; OCaml driver and Rust harness glue; the tie of the hand-written model to /repo is the correspondence check (differential testing on the generated inputs, rebuilt from the working tree every run), not a proof about the Rust source. usize wrap-around is not modelled.',
+        technique='Coq proof (first-seen numbering invariant; oracle equality) + correspondence on both sides of the 100-token threshold',
+    ),
+    relevant=lambda comp, kv: {"no_panic", "ops_eq_tokens_diff", "alg_reported", "newline_flag", "identify_iff_eq",
+                               "identify_ranges", "ops_loose"},
+    run=run_C14,
+    generators="textdiff component with token counts (99,99) (100,100) (100,101) (101,100) (101,3) (3,101) (250,240) "
+               "(99,101) per side for every tokenizer and algorithm, near-identical and unrelated, newline_terminated "
+               "override none/true/false, plus small random texts; identify component: every ternary pair up to 3/4 "
+               "with sub-ranges and random pairs up to 60 with non-zero offsets for u8/u16/u32/u64",
+)
+
+
+# ------------------------------------------------------------------ C05
+def udiff_line(alg, mode, radius, header, hint, via, o, n, repair=0):
+    return "udiff alg=%s mode=%s radius=%d header=%d hint=%d via=%s repair=%d old=%s new=%s" % (
+        alg, mode, radius, header, hint, via, repair, gen.hx(o), gen.hx(n))
+
+
+def run_C05(ctx):
+    rel = SPECS["C05"]["relevant"]
+    lines = []
+    pairs = []
+    for _ in range(tiered(ctx, 1500, 15000)):
+        t, alpha = gen.rand_lines_text(ctx.rng, 10, invalid=False)
+        pairs.append((t, gen.edit_lines_text(ctx.rng, t, alpha), False))
+    for _ in range(tiered(ctx, 500, 5000)):
+        t, alpha = gen.rand_lines_text(ctx.rng, 8, invalid=True)
+        pairs.append((t, gen.edit_lines_text(ctx.rng, t, alpha), True))
+    pairs += [(b"", b"", False), (b"a", b"a", False), (b"a\n", b"a", False), (b"a", b"a\n", False), (b"", b"a", False),
+              (b"a\nb\n", b"", False), (b"\x18\n\n", b"\n\n\r", False), (b"b\na\n", b"a\na\n", False)]
+    for o, n, inv in pairs:
+        alg = ctx.rng.choice(ALGS)
+        radius = ctx.rng.choice([0, 0, 1, 2, 3, 5])
+        header = ctx.rng.randrange(2)
+        hint = 1 if ctx.rng.random() < 0.8 else 0
+        if not inv and is_valid_utf8(o) and is_valid_utf8(n):
+            for via in ("display", "writer", "hunks"):
+                lines.append(udiff_line(alg, "str", radius, header, hint, via, o, n))
+            lines.append(udiff_line(alg, "str", radius, header, 1, "fn", o, n))
+            ctx.count("udiff:str", 4)
+        for via in ("display", "writer", "hunks"):
+            lines.append(udiff_line(alg, "bytes", radius, header, hint, via, o, n))
+        ctx.count("udiff:bytes", 3)
+    C.evaluate(ctx, "corpus", corpus_lines({"udiff"}), rel, nontrivial=lambda comp, kv, impl: impl != "out=-")
+    C.evaluate(ctx, "udiff", lines, rel, nontrivial=lambda comp, kv, impl: impl.split(" ")[0] != "out=-")
+
+
+SPECS["C05"] = dict(
+    level="proof",
+    manifest=dict(
+        text="Machine-checked theorems (Props/C05.v, closed under the global context): for index-exact alternating line ops the model of the renderer equals an independent printer of hunk records (render = print o model_hunks, no panic), those hunk records pass the independent strict applier check_patch (counts = body counts, shown starts = true positions, increasing non-overlapping, every context/'-' line matches, result = new text, every hunk contains a change with <= radius context at the edges and deletions before insertions), empty output iff no change, file header once and only with a hunk, the no-newline marker exactly on lines lacking one, the writer emits line bytes unchanged and Display = lossy(writer). The OpsExact premise is exactly what known finding F5 breaks; failing cases are attributed by the cfg(similar_verif) swap-repair switch. The real output is parsed strictly (glue) and fed to the extracted check_patch.",
+        note='Trusted: Coq 8.16.1 kernel; extraction with ExtrOcamlBasic only; OCaml driver and Rust harness glue; the tie of the hand-written model to /repo is the correspondence check (differential testing on the generated inputs, rebuilt from the working tree every run), not a proof about the Rust source. usize wrap-around is not modelled.',
+        technique='Coq proof (renderer = printer of hunks; hunks apply strictly) + correspondence byte-for-byte + extracted strict applier on parsed implementation output',
+    ),
+    relevant=lambda comp, kv: {"no_panic", "udiff_empty_iff_equal", "display_eq_lossy_writer", "display_eq_writer",
+                               "udiff_wellformed", "udiff_applies"},
+    run=run_C05,
+    generators="udiff component: random line texts over small line alphabets (LF/CRLF/CR, missing final newline, empty) "
+               "and their edits, in byte mode also invalid UTF-8; algorithm, radius in {0,1,2,3,5}, header on/off, "
+               "hint on/off; rendered through Display, UnifiedDiff::to_writer, per-hunk to_writer and "
+               "udiff::unified_diff.  The rendered text is parsed (strictly) and applied by the extracted check_patch",
+)
+
+
+# ------------------------------------------------------------------ C16
+def run_C16(ctx):
+    rel = SPECS["C16"]["relevant"]
+    pairs = []
+    for _ in range(tiered(ctx, 1500, 15000)):
+        t, alpha = gen.rand_lines_text(ctx.rng, 7, invalid=False)
+        pairs.append((t, gen.edit_lines_text(ctx.rng, t, alpha), "str" if ctx.rng.random() < 0.5 else "bytes"))
+    for _ in range(tiered(ctx, 300, 3000)):
+        t, alpha = gen.rand_lines_text(ctx.rng, 6, invalid=True)
+        pairs.append((t, gen.edit_lines_text(ctx.rng, t, alpha), "bytes"))
+    # the word oracle for every line of every text (MultiLookup uses tokenize_unicode_words)
+    import re as _re
+    need = {"str": set(), "bytes": set()}
+    split = lambda t: _re.findall(rb"[^\r\n]*(?:\r\n|\r|\n)|[^\r\n]+", t)
+    for o, n, mode in pairs:
+        need[mode].update(split(o))
+        need[mode].update(split(n))
+    orc = {m: oracle_tokens(ctx, "uwords", m, v) for m, v in need.items() if v}
+    lines = []
+    for o, n, mode in pairs:
+        ent = []
+        ok = True
+        for l in sorted(set(split(o) + split(n))):
+            b = orc[mode].get(l)
+            if b is None or "X" in b:
+                ok = False
+                break
+            ent.append("%s~%s" % (gen.hx(l), b.replace(",", ".")))
+        if not ok:
+            ctx.count("inline:skipped-lossy-word-oracle")
+            continue
+        alg = ctx.rng.choice(ALGS)
+        idl = ctx.rng.choice(["-", "-", "0"])
+        lines.append("inline alg=%s mode=%s idl=%s old=%s new=%s uw=%s" % (alg, mode, idl, gen.hx(o), gen.hx(n), ";".join(ent) or "-"))
+        ctx.count("inline:cases")
+    C.evaluate(ctx, "inline", lines, rel, nontrivial=lambda comp, kv, impl: "1." in impl)
+
+
+SPECS["C16"] = dict(
+    level="proof",
+    manifest=dict(
+        text="Machine-checked theorems (Props/C16.v, closed under the global context), parametric in the word tokenizer (an oracle assumed only to be a lossless partition, replayed from the implementation) and in the second-level diff (assumed loosely valid, proved in the pipeline): non-Replace ops expand to the plain changes with nothing emphasised; for Replace ops the inline changes have the same tags and indices as the plain expansion, each change's segments concatenate to its line, emphasised segments contain no CR/LF; MultiLookup and get_original_slices specs. Checked on the real output for every op incl. expired inline deadline.",
+        note='Trusted: Coq 8.16.1 kernel; extraction with ExtrOcamlBasic only; OCaml driver and Rust harness glue; the tie of the hand-written model to /repo is the correspondence check (differential testing on the generated inputs, rebuilt from the working tree every run), not a proof about the Rust source. usize wrap-around is not modelled.',
+        technique='Coq proof parametric in replayed oracles + correspondence + checker on implementation output',
+    ),
+    relevant=lambda comp, kv: {"no_panic", "inline_same_shape", "inline_concat_line", "inline_emph_only_replace",
+                               "inline_no_newline_emph", "inline_missing_newline"},
+    run=run_C16,
+    generators="inline component: random line texts and their edits (one word changed, lines replaced, mixed "
+               "terminators, missing final newline, multi-byte words; invalid UTF-8 in byte mode), every op of the line "
+               "diff expanded by iter_inline_changes_deadline with the second-level deadline none / expired at probe 0; "
+               "the unicode-word segmentation of every line is replayed from the implementation (oracle)",
+)
+
+
+# ------------------------------------------------------------------ C17
+def run_C17(ctx):
+    rel = SPECS["C17"]["relevant"]
+    cases = []
+    pairs = text_pairs(ctx, tiered(ctx, 500, 5000), invalid=False) + [(b"", b""), (b"a", b""), (b"", b"a")]
+    for o, n in pairs:
+        for tok in ("chars", "words", "uwords", "graphemes", "lines"):
+            for alg in ALGS:
+                cases.append("remap tok=%s alg=%s mode=str old=%s new=%s" % (tok, alg, gen.hx(o), gen.hx(n)))
+                cases.append("remap tok=%s alg=%s mode=bytes old=%s new=%s" % (tok, alg, gen.hx(o), gen.hx(n)))
+                ctx.count("remap:valid", 2)
+    for o, n in text_pairs(ctx, tiered(ctx, 300, 3000), invalid=True):
+        for tok in ("chars", "words", "uwords", "graphemes", "lines"):
+            cases.append("remap tok=%s alg=%s mode=bytes old=%s new=%s" % (tok, ctx.rng.choice(ALGS), gen.hx(o), gen.hx(n)))
+            ctx.count("remap:invalid-bytes")
+    # the modelled tokenizers are compared with the model; oracle ones only through the checker
+    C.evaluate(ctx, "remap-modelled", [c for c in cases if " tok=uwords" not in c and " tok=graphemes" not in c], rel,
+               nontrivial=nontrivial_text)
+    C.evaluate(ctx, "remap-oracle", [c for c in cases if " tok=uwords" in c or " tok=graphemes" in c], rel,
+               nontrivial=nontrivial_text, x=False)
+    sl = []
+    for _ in range(tiered(ctx, 1000, 10000)):
+        a, b = gen.structured_pair(ctx.rng, 20)
+        sl.append("slices alg=%s old=%s new=%s" % (ctx.rng.choice(ALGS), gen.fmt_list(a), gen.fmt_list(b)))
+        ctx.count("slices:diff_slices")
+    sl.append("slices alg=L old=- new=-")
+    C.evaluate(ctx, "slices", sl, rel, nontrivial=nontrivial_text)
+
+
+SPECS["C17"] = dict(
+    level="proof",
+    manifest=dict(
+        text="Machine-checked theorems (Props/C17.v, closed under the global context): the remapper's cumulative ranges are the token boundaries; a non-empty token range remaps to the exact substring = concatenation of its tokens; for loosely valid non-empty ops the slices have the tags of slice-wise expansion, reconstruct both texts, are never empty, never panic; an empty op panics only at position 0 or at the end (so LCS's former zero-length op was the C17 defect). Helpers checked on the real code for all tokenizers incl. oracle ones.",
+        note='Trusted: Coq 8.16.1 kernel; extraction with ExtrOcamlBasic only; OCaml driver and Rust harness glue; the tie of the hand-written model to /repo is the correspondence check (differential testing on the generated inputs, rebuilt from the working tree every run), not a proof about the Rust source. usize wrap-around is not modelled.',
+        technique='Coq proof + correspondence + checker on implementation output (exact substring offsets by pointer arithmetic)',
+    ),
+    relevant=lambda comp, kv: {"no_panic", "remap_reconstruct_old", "remap_reconstruct_new", "remap_nonempty",
+                               "remapper_same", "remap_exact_substrings"},
+    run=run_C17,
+    generators="remap component: utils::diff_chars/words/unicode_words/graphemes/lines and an explicit "
+               "TextDiffRemapper over the same diff, random texts incl. empty and multi-byte, str and bytes (invalid "
+               "UTF-8 in byte mode), 3 algorithms; slices component: utils::diff_slices on structured pairs",
+)
+
+
+# ------------------------------------------------------------------ C20
+def run_C20(ctx):
+    rel = SPECS["C20"]["relevant"]
+    lines = []
+    for a, b in gen.all_pairs(2, 3):
+        for alg in ALGS:
+            lines.append("repeat alg=%s or=0:%d nr=0:%d reps=5 old=%s new=%s" % (alg, len(a), len(b), gen.fmt_list(a), gen.fmt_list(b)))
+            ctx.count("repeat:binary")
+    for _ in range(tiered(ctx, 600, 6000)):
+        a, b = gen.structured_pair(ctx.rng, 40)
+        r = gen.rand_subranges(ctx.rng, a, b)
+        lines.append("repeat alg=%s or=%d:%d nr=%d:%d reps=5 old=%s new=%s" % (ctx.rng.choice(ALGS), r[0], r[1], r[2], r[3], gen.fmt_list(a), gen.fmt_list(b)))
+        ctx.count("repeat:random (x20 executions in 4 threads, 4 relabellings)")
+    C.evaluate(ctx, "repeat", lines, rel)
+    big = []
+    for n in tiered(ctx, [700, 1100], [300, 700, 1100, 1600]):
+        X = list(range(0, n))
+        Y = list(range(n, 2 * n))
+        for a, b in ((X + Y, Y + X), (X + Y, Y + [5] + X), (X + [7, 7] + Y, Y + X)):
+            for alg in "PM":
+                big.append("repeat alg=%s or=0:%d nr=0:%d reps=3 old=%s new=%s" % (alg, len(a), len(b), gen.fmt_list(a), gen.fmt_list(b)))
+                ctx.count("repeat:block-swap-of-%d-unique-items" % n)
+    C.evaluate(ctx, "repeat-large", big, rel, x=False, cap=120)
+    cases = []
+    idx = []
+    for o, n in text_pairs(ctx, tiered(ctx, 400, 4000), invalid=False):
+        for tok in ("lines", "words", "chars"):
+            alg = ctx.rng.choice(ALGS)
+            idx.append(len(cases))
+            cases.append((tok, alg, "str", None, "-", o, n))
+            cases.append((tok, alg, "bytes", None, "-", o, n))
+            ctx.count("textdiff:str-vs-bytes", 2)
+    tl = textdiff_lines(ctx, cases)
+    impl, _, _ = C.evaluate(ctx, "textdiff", tl, rel, nontrivial=nontrivial_text)
+    for i in idx:
+        a = impl[i].split(" ")[0]
+        b = impl[i + 1].split(" ")[0]
+        if a != b:
+            ctx.failures.append(dict(batch="str-vs-bytes", case=tl[i], impl=impl[i] + " / bytes: " + impl[i + 1], model=None,
+                                     clauses=["str_bytes_same_ops"], dbg=False))
+
+
+SPECS["C20"] = dict(
+    level="proof",
+    manifest=dict(
+        text="Machine-checked theorems (Props/C20.v): the model's results depend on the items only through the three comparison oracles; relabelling by any injective function leaves capture_diff, the raw trace, IdentifyDistinct and text diffs unchanged (uses functional_extensionality_dep; the pointwise oracle lemmas are axiom-free); equal token lists give equal text diffs (with C06: str = bytes). That the real code agrees with this one function on every execution is exercised, not proved: 12-20 executions in 4 threads with fresh hasher seeds under 4 relabellings, incl. block swaps of >1024 unique items.",
+        note='Trusted: Coq 8.16.1 kernel; extraction with ExtrOcamlBasic only; OCaml driver and Rust harness glue; the tie of the hand-written model to /repo is the correspondence check (differential testing on the generated inputs, rebuilt from the working tree every run), not a proof about the Rust source. usize wrap-around is not modelled.',
+        technique='Coq proof of relabelling invariance + repeated/threaded/relabelled execution of the real code against the model',
+    ),
+    relevant=lambda comp, kv: {"no_panic", "deterministic", "str_bytes_same_ops"},
+    run=run_C20,
+    generators="repeat component: capture_diff of every binary pair up to 3 and random structured pairs with "
+               "sub-ranges, and tied block swaps of 700-1600 unique items (checker only, no model run), executed 12-20 times in 4 threads (fresh RandomState per HashMap) under 4 relabellings "
+               "(identity, order preserving, order reversing, hash scrambling), all results identical to each other and "
+               "to the model; textdiff component: str vs the same bytes as [u8] for lines/words/chars",
+)
+
+
+# ------------------------------------------------------------------ C15
+def run_C15(ctx):
+    rel = SPECS["C15"]["relevant"]
+    lines = []
+    seen = set()
+    for a, b in gen.all_pairs(4, tiered(ctx, 4, 5)):
+        key = gen.canon_pair(a, b)
+        if key in seen:
+            continue
+        seen.add(key)
+        lines.append(gen.raw_line("P", a, b))
+        lines.append(gen.capture_line("P", a, b))
+        ctx.count("patience:alphabet-4-exhaustive", 2)
+    for _ in range(tiered(ctx, 3000, 30000)):
+        k = ctx.rng.randrange(5)
+        n = ctx.rng.randrange(0, 30)
+        if k == 0:      # unique-rich with shuffled blocks
+            a = list(range(n))
+            b = gen.block_move(ctx.rng, gen.block_move(ctx.rng, a))
+        elif k == 1:    # duplicates that are unique on one side only
+            a = list(range(n))
+            b = list(a)
+            for _ in range(ctx.rng.randrange(1, 4)):
+                if a:
+                    b.insert(ctx.rng.randrange(len(b) + 1), ctx.rng.choice(a))
+            ctx.rng.shuffle(b) if ctx.rng.random() < 0.3 else None
+        elif k == 2:    # odd repeat counts (3x) crossing a genuine anchor
+            a = [ctx.rng.randrange(4) for _ in range(n)]
+            b = [ctx.rng.randrange(4) for _ in range(ctx.rng.randrange(0, 30))]
+            if a:
+                a.insert(ctx.rng.randrange(len(a) + 1), 99)
+                b.insert(ctx.rng.randrange(len(b) + 1), 99)
+        else:
+            a, b = gen.structured_pair(ctx.rng, 30)
+        r = gen.rand_subranges(ctx.rng, a, b) if ctx.rng.random() < 0.3 else None
+        lines.append(gen.raw_line("P", a, b, r))
+        lines.append(gen.capture_line("P", a, b, r))
+        ctx.count("patience:random", 2)
+    C.evaluate(ctx, "corpus", corpus_lines({"raw", "capture"}), rel)
+    C.evaluate(ctx, "patience", lines, rel)
+
+
+SPECS["C15"] = dict(
+    level="proof",
+    manifest=dict(
+        text='Machine-checked theorems (Props/C15.v, closed under the global context): unique returns, ascending, exactly the indices whose item occurs once (no hash order); without deadline every anchor pair chosen on the unique lists is reported inside an Equal that pairs exactly those two positions, and the number of anchor pairs is the LCS length of the unique lists (Myers minimality one level down, via a simulation showing the outer run is independent of the hook). The checker counts unique common items reported Equal with their counterpart against the extracted lcs_len.',
+        note='Trusted: Coq 8.16.1 kernel; extraction with ExtrOcamlBasic only; OCaml driver and Rust harness glue; the tie of the hand-written model to /repo is the correspondence check (differential testing on the generated inputs, rebuilt from the working tree every run), not a proof about the Rust source. usize wrap-around is not modelled.',
+        technique='Coq proof (Patience hook invariant, world simulation, Myers minimality) + verified-optimum checker on implementation output',
+    ),
+    relevant=lambda comp, kv: {"no_panic", "anchors_max", "raw_valid", "ops_loose"},
+    run=run_C15,
+    generators="raw and capture components with algorithm Patience, no deadline: every pair over a 4-letter alphabet up "
+               "to length 4/5 modulo relabelling; random unique-rich sequences with shuffled blocks, items unique on one "
+               "side only, items repeated an odd number of times next to a genuine anchor, structured pairs, sub-ranges",
+)
+
+
+# ------------------------------------------------------------------ C18
+def f32_bits(x):
+    import struct
+    return struct.unpack("<I", struct.pack("<f", x))[0]
+
+
+def lcs_len_py(a, b):
+    prev = [0] * (len(b) + 1)
+    for x in a:
+        cur = [0]
+        for j, y in enumerate(b):
+            cur.append(prev[j] + 1 if x == y else max(prev[j + 1], cur[j]))
+        prev = cur
+    return prev[-1]
+
+
+def run_C18(ctx):
+    rel = SPECS["C18"]["relevant"]
+    lines = []
+    alpha = ["a", "b", "c"]
+    words3 = [""] + ["".join(t) for n in (1, 2, 3) for t in __import__("itertools").product(alpha, repeat=n)]
+    multi = ["é", "\U0001F600", "世", "x"]
+    for _ in range(tiered(ctx, 1500, 15000)):
+        k = ctx.rng.randrange(3)
+        if k == 0:
+            word = ctx.rng.choice(words3)
+            cands = [ctx.rng.choice(words3) for _ in range(ctx.rng.randrange(0, 12))]
+        elif k == 1:   # mixed-width characters: byte length != char count
+            mk = lambda: "".join(ctx.rng.choice(alpha + multi) for _ in range(ctx.rng.randrange(0, 9)))
+            word = mk()
+            cands = [mk() for _ in range(ctx.rng.randrange(0, 10))]
+            if ctx.rng.random() < 0.5 and word:
+                cands.append(word[: len(word) // 2] + "".join(ctx.rng.choice(multi) for _ in range(2)))
+                cands.append(word + "\U0001F600\U0001F600")
+        else:          # near misses of one long word, duplicates
+            word = "".join(ctx.rng.choice("abcdefgh") for _ in range(ctx.rng.randrange(3, 14)))
+            cands = []
+            for _ in range(ctx.rng.randrange(1, 10)):
+                w = list(word)
+                for _ in range(ctx.rng.randrange(0, 4)):
+                    if w and ctx.rng.random() < 0.5:
+                        del w[ctx.rng.randrange(len(w))]
+                    else:
+                        w.insert(ctx.rng.randrange(len(w) + 1), ctx.rng.choice("abcdefghxyzé"))
+                cands.append("".join(w))
+            if cands and ctx.rng.random() < 0.5:
+                cands.append(ctx.rng.choice(cands))
+        # cutoffs: 0, 1, and every ratio value hit exactly, its successor and predecessor
+        cut = {f32_bits(0.0), f32_bits(1.0), f32_bits(0.6), f32_bits(0.5)}
+        for c in cands:
+            tot = len(word) + len(c)
+            r = 1.0 if tot == 0 else 2.0 * lcs_len_py(word, c) / tot
+            b = f32_bits(r)
+            cut.update({b, b + 1, max(0, b - 1)})
+        for cb in ctx.rng.sample(sorted(cut), min(len(cut), 4)):
+            n = ctx.rng.choice([0, 1, 3, 100])
+            lines.append("close word=%s cands=%s n=%d cutoff=%d" % (
+                gen.hx(word.encode()), "|".join((gen.hx(c.encode()) if c else "e") for c in cands) or "-", n, cb))
+            ctx.count("close:cases")
+    lines.append("close word=%s cands=%s n=3 cutoff=%d" % (gen.hx(b"appel"), "|".join(gen.hx(x) for x in [b"ape", b"apple", b"peach", b"puppy"]), f32_bits(0.6)))
+    C.evaluate(ctx, "close", lines, rel, nontrivial=lambda comp, kv, impl: "res=-" not in impl)
+
+
+SPECS["C18"] = dict(
+    level=("proof" if __import__("os").path.exists(__import__("os").path.join(C.VERIF, "coq", "Props", "C18.v")) else "translation_validation"),
+    manifest=dict(
+        text="K-level now, theorems when Proofs/Close.v is present: the extracted lcs_len recomputes every candidate's character-level ratio bit-for-bit (f32(2L/(N+M))) and the result is compared with the exhaustive ranking (key = trunc(ratio*2^32) saturated, ties lexicographic) on words with mixed-width characters, duplicates, empty strings, n in {0,1,3,100} and cutoffs at, just below and just above every ratio value. Model-level theorems (filters never discard a qualifying candidate for any monotone rounding; result = first n of the sorted qualifying candidates) are in Props/C18.v when present.",
+        note='Trusted: Coq 8.16.1 kernel; extraction with ExtrOcamlBasic only; OCaml driver and Rust harness glue; the tie of the hand-written model to /repo is the correspondence check (differential testing on the generated inputs, rebuilt from the working tree every run), not a proof about the Rust source. usize wrap-around is not modelled.',
+        technique='verified-optimum checker + exhaustive-ranking oracle on implementation output; Coq proof over an abstract monotone rounding',
+    ),
+    relevant=lambda comp, kv: {"no_panic", "close_matches_spec", "close_ratio_is_2L"},
+    run=run_C18,
+    generators="close component (get_close_matches): words and candidate lists over a 3-letter alphabet (all words up to "
+               "length 3, duplicates, empty strings), mixed-width characters (1/2/3/4-byte) where byte length differs "
+               "from char count, near misses of a longer word; n in {0,1,3,100}; cutoffs 0, 1, 0.5, 0.6 and every ratio "
+               "value that occurs exactly, its f32 successor and predecessor",
+)
+
+
+# ------------------------------------------------------------------ C19
+def run_C19(ctx):
+    rel = SPECS["C19"]["relevant"]
+    small = small_world_raw(ctx, algs="MP")
+    C.evaluate(ctx, "raw-small-world", small, rel)
+    mid = random_world(ctx, tiered(ctx, 1500, 15000), 120,
+                       lambda a, b, r, idx: [gen.raw_line(alg, a, b, r, idx=idx) for alg in "MP"])
+    C.evaluate(ctx, "raw-random-120", mid, rel)
+    big = []
+    sizes = tiered(ctx, [300, 1000, 3000], [300, 1000, 2000, 4000])
+    for n in sizes:
+        for fam in range(6):
+            for rep in range(tiered(ctx, 2, 6)):
+                if fam == 0:      # near identical, few edits, large alphabet
+                    a = gen.rand_seq(ctx.rng, n, 1000)
+                    b = gen.edit_seq(ctx.rng, a, ctx.rng.randrange(1, 21), 1000)
+                elif fam == 1:    # near identical, small alphabet
+                    a = gen.rand_seq(ctx.rng, n, 3)
+                    b = gen.edit_seq(ctx.rng, a, ctx.rng.randrange(1, 21), 3)
+                elif fam == 2:    # block move
+                    a = gen.rand_seq(ctx.rng, n, 50)
+                    b = gen.block_move(ctx.rng, a)
+                elif fam == 3:    # periodic
+                    p = ctx.rng.choice([2, 3, 7])
+                    a = [i % p for i in range(n)]
+                    b = [(i + 1) % p for i in range(n - ctx.rng.randrange(0, 5))]
+                elif fam == 4:    # all unique, few edits (Patience anchors)
+                    a = list(range(n))
+                    b = gen.edit_seq(ctx.rng, a, ctx.rng.randrange(1, 10), 5 * n)
+                else:             # unrelated (quadratic by design): keep it smaller
+                    m = min(n, 600)
+                    a = gen.rand_seq(ctx.rng, m, 4)
+                    b = gen.rand_seq(ctx.rng, m, 4)
+                for alg in "MP":
+                    big.append(gen.raw_line(alg, a, b))
+                    ctx.count("raw:large-%d" % n)
+    impl, _, _ = C.evaluate(ctx, "raw-large", big, rel, x=False, cap=120)
+    # observed constant: comparisons / ((N+M+1)(D+1)), D = size of the reported script
+    worst = 0.0
+    for line, im in zip(big, impl):
+        m = re.search(r"cmps=(\d+)", im)
+        if not m:
+            continue
+        comp, kv = C.parse_line(line)
+        nn = (0 if kv["old"] == "-" else kv["old"].count(",") + 1) + (0 if kv["new"] == "-" else kv["new"].count(",") + 1)
+        d = sum(int(c.split(":")[2]) if c[0] == "D" else int(c.split(":")[3]) for c in im.split(" ")[0].split("=", 1)[1].split(",") if c[0] in "DI")
+        worst = max(worst, int(m.group(1)) / ((nn + 1) * (d + 1)))
+    ctx.notes.append("largest observed comparisons/((N+M+1)(D+1)) on the large inputs: %.3f (bound checked: 6)" % worst)
+
+
+SPECS["C19"] = dict(
+    level=("proof" if __import__("os").path.exists(__import__("os").path.join(C.VERIF, "coq", "Props", "C19.v")) else "translation_validation"),
+    manifest=dict(
+        text="The comparison count of the model equals the real crate's count (counting PartialEq) exactly on all small worlds and random pairs (Myers and Patience), and comparisons <= 6 (N+M+1)(D+1) is checked up to 3000/4000 items for near-identical, block-move, periodic, all-unique and unrelated inputs. Theorems about the model's count (per-scan, per-round and overall bound) are in Props/C19.v when present; see the evidence theorem list for what is proved.",
+        note='Trusted: Coq 8.16.1 kernel; extraction with ExtrOcamlBasic only; OCaml driver and Rust harness glue; the tie of the hand-written model to /repo is the correspondence check (differential testing on the generated inputs, rebuilt from the working tree every run), not a proof about the Rust source. usize wrap-around is not modelled.',
+        technique='exact count correspondence model/implementation + bound checked on large structured inputs; Coq proof of the count bound (partial, see evidence)',
+    ),
+    relevant=lambda comp, kv: {"no_panic", "work_bound"},
+    run=run_C19,
+    generators="raw component with a counting PartialEq, algorithms Myers and Patience, no deadline: the exhaustive "
+               "small worlds and random pairs up to 120 (comparison counts compared with the model exactly), and "
+               "sequences of 300..3000/4000 items: near-identical (1-20 edits, large and small alphabets), block moves, "
+               "periodic, all-unique with few edits, unrelated (up to 600); bound checked: comparisons <= 6 (N+M+1)(D+1) "
+               "with D the size of the reported script",
 )
